@@ -339,7 +339,22 @@ impl World {
         let built = build_snow(&nc, rng.clone(), record);
         let (st, build_result) = match built {
             Err(p) => {
+                // the DH named by the string, even when the model does not implement the name
+                let dh_by_name = match nc.name.split('_').nth(2) {
+                    Some("P256") => Some(crate::refnoise::DhK::P256),
+                    Some("25519") => Some(crate::refnoise::DhK::X25519),
+                    _ => None,
+                };
+                let invalid_p256_scalar = dh_by_name == Some(crate::refnoise::DhK::P256)
+                    && nc.s_priv.as_ref().map_or(false, |s| {
+                        s.len() <= 32 && {
+                            let mut k = [0u8; 32];
+                            k[..s.len()].copy_from_slice(s);
+                            crate::refnoise::DhK::P256.pubkey(&k).is_none()
+                        }
+                    });
                 let irregular = match &proto {
+                    _ if invalid_p256_scalar => "invalid-scalar",
                     Some(p) => {
                         let s_len = nc.s_priv.as_ref().map(|s| s.len());
                         let r_len = nc.rs_pub.as_ref().map(|r| r.len());
@@ -361,7 +376,7 @@ impl World {
                     },
                     None => "unparsed-name",
                 };
-                let site = format!("build/{}/{}", proto.as_ref().map_or("?", |p| p.dh.name()), irregular);
+                let site = format!("build/{}/{}", dh_by_name.map_or("?", |d| d.name()), irregular);
                 self.flag(&["C10"], "panic", &site, &format!("build panicked: {p}"));
                 self.stats.aborted_by_panic += 1;
                 (St::Gone("build-panic"), "panic".to_string())
@@ -596,7 +611,7 @@ impl World {
             if !node.rs_allowed.contains(&rs) {
                 let p = node.shadow.as_ref().unwrap().proto.clone();
                 self.flag(
-                    &["C17"],
+                    &["C17", "C07"],
                     "remote-static-after-failed-read",
                     &format!("hs/{}/{}", p.dh.name(), what),
                     &format!(
@@ -1052,6 +1067,9 @@ impl World {
                             let mut props = vec!["C02", "C14", "C01"];
                             if prev_err {
                                 props.push("C07");
+                            }
+                            if matches!(e, Error::State(StateProblem::MissingPsk) | Error::State(StateProblem::MissingKeyMaterial)) {
+                                props.push("C12");
                             }
                             if self.misuse[i / 2] {
                                 props.push("C11");
@@ -1530,6 +1548,9 @@ impl World {
                     }
                     if self.misuse[i / 2] {
                         props.push("C11");
+                    }
+                    if matches!(e, Error::State(StateProblem::MissingPsk) | Error::State(StateProblem::MissingKeyMaterial)) {
+                        props.push("C12");
                     }
                     self.flag(&props, "read-fails-but-must-succeed", &site, &format!("{e:?} len={} out={outlen} src={srckind}", bytes.len()));
                 } else {
